@@ -1,8 +1,10 @@
 package main
 
 import (
+	"encoding/json"
 	"fmt"
 	"os"
+	"os/exec"
 	"path/filepath"
 	"sort"
 	"strings"
@@ -45,6 +47,7 @@ func c17ref(paths []string) string {
 }
 
 func runC17(e *env) {
+	defer c17CLI(e)
 	e.m.Rule = "(a) path sets: 1..6 absolute cleaned directories over element pools with shared name prefixes (foo, foo1, foo2, fo, foobar...), nesting, duplicates, root; " +
 		"non-trivial = at least 2 distinct directories; (b) real module layouts on disk loaded with analysis.LoadSources (sibling packages with a common name prefix, nesting, one file, duplicates, relative and absolute spellings) " +
 		"and the error stream (missing file, non-Go file, type error, empty list)"
@@ -372,4 +375,80 @@ func c17load(files []string) (pkgs []*packages.Package, dir string, err error, c
 	}
 	pkgs, dir, err = analysis.LoadSources(files)
 	return pkgs, dir, err, "ok", ""
+}
+
+// c17CLI: the command in configuration mode hands every file the package LoadSources returned for it, also when
+// -dart-only skips the files without a Dart action (cmd/gomacro.go:Config.run indexes the packages by file).
+func c17CLI(e *env) {
+	dir := scratchDir("c17cli")
+	bin := filepath.Join(dir, "gomacro")
+	build := exec.Command("go", "build", "-o", bin, "./cmd")
+	build.Dir = "/repo"
+	build.Env = os.Environ()
+	if outb, err := build.CombinedOutput(); err != nil {
+		e.m.fail(oracleFailure{What: "the command does not build: " + string(outb), Input: "go build ./cmd", NoInput: true})
+		return
+	}
+	mod := filepath.Join(dir, "mod")
+	writeFile(filepath.Join(mod, "go.mod"), "module example.com/org/mod\n\ngo 1.21\n")
+	writeFile(filepath.Join(mod, "alpha", "tables.go"), "package alpha\n\ntype IdRow int64\n\ntype Row struct {\n\tId IdRow\n\tName string\n}\n")
+	writeFile(filepath.Join(mod, "beta", "model.go"), "package beta\n\ntype Model struct {\n\tA int\n\tB string\n}\n")
+	writeFile(filepath.Join(mod, "gamma", "other.go"), "package gamma\n\ntype Other struct {\n\tC bool\n}\n")
+	goDir := ""
+	if p, err := exec.LookPath("go"); err == nil {
+		goDir = filepath.Dir(p)
+	}
+	fake := filepath.Join(dir, "fakebin")
+	os.MkdirAll(fake, 0o755)
+	writeFile(filepath.Join(fake, "npx"), "#!/bin/sh\nexit 1\n")
+	os.Chmod(filepath.Join(fake, "npx"), 0o755)
+	for _, dartOnly := range []bool{false, true} {
+		out := filepath.Join(dir, fmt.Sprintf("out_%v", dartOnly))
+		os.MkdirAll(out, 0o755)
+		conf := map[string][]map[string]string{
+			filepath.Join(mod, "alpha", "tables.go"): {{"Mode": "sql", "Output": filepath.Join(out, "alpha.sql")}},
+			filepath.Join(mod, "beta", "model.go"):   {{"Mode": "dart", "Output": out}, {"Mode": "typescript/types", "Output": filepath.Join(out, "beta.ts")}},
+			filepath.Join(mod, "gamma", "other.go"):  {{"Mode": "dart", "Output": out}},
+			"_dart":                                  {{"Mode": "dart", "Output": out}},
+		}
+		cb, _ := json.Marshal(conf)
+		confFile := filepath.Join(dir, fmt.Sprintf("conf_%v.json", dartOnly))
+		writeFile(confFile, string(cb))
+		args := []string{"-config"}
+		if dartOnly {
+			args = append(args, "-dart-only")
+		}
+		cmd := exec.Command(bin, append(args, confFile)...)
+		cmd.Dir = mod
+		env := []string{"PATH=" + fake + ":" + goDir + ":/usr/bin:/bin", "HOME=" + os.Getenv("HOME")}
+		for _, kv := range os.Environ() {
+			if strings.HasPrefix(kv, "GO") {
+				env = append(env, kv)
+			}
+		}
+		cmd.Env = env
+		outb, err := cmd.CombinedOutput()
+		e.m.Evaluations++
+		e.m.OracleRuns++
+		e.m.Nontrivial++
+		e.m.count("cli_config_run")
+		input := map[string]interface{}{"config": conf, "dart_only": dartOnly}
+		if err != nil {
+			e.m.fail(oracleFailure{What: "the command fails on existing Go files of one module (configuration mode): " + tail(string(outb), 700), Input: input})
+			continue
+		}
+		// each Dart file holds the classes of its own package: the file handed to the analysis was given its own package
+		for pkg, class := range map[string]string{"beta": "class Model", "gamma": "class Other"} {
+			b, rerr := os.ReadFile(filepath.Join(out, "stdlib_example.com_org_mod_"+pkg+".dart"))
+			if rerr != nil || !strings.Contains(string(b), class) {
+				e.m.fail(oracleFailure{What: "the Dart file of package " + pkg + " does not declare " + class + ": the file was not analysed with the package that contains it", Input: input, Got: tail(string(b), 400)})
+			}
+		}
+		if !dartOnly {
+			b, _ := os.ReadFile(filepath.Join(out, "alpha.sql"))
+			if !strings.Contains(string(b), "CREATE TABLE rows") {
+				e.m.fail(oracleFailure{What: "the SQL file of alpha/tables.go does not create its table", Input: input, Got: tail(string(b), 400)})
+			}
+		}
+	}
 }
